@@ -129,15 +129,22 @@ def span_cases(draw):
 def judge_span(c, rec):
     from opendsm.eemeter.models.hourly_caltrack.segmentation import segment_time_series
 
-    idx = pd.date_range(pd.Timestamp("2020-01-01", tz="UTC") + pd.Timedelta(hours=c["start_h"]), periods=c["n"],
-                        freq="h").tz_convert(c["tz"])
-    w = segment_time_series(idx, c["type"], drop_zero_weight_segments=c["drop"])
-    ref = ref_weights(idx.month.values, c["type"])
-    if c["drop"]:
-        ref = {k: v for k, v in ref.items() if v.sum() > 0}
-    ok = list(w.columns) == list(ref.keys()) and all(np.array_equal(w[k].values.astype(float), v) for k, v in ref.items())
-    if not ok:
-        rec.violation("weights/span/%s/drop=%d" % (c["type"], c["drop"]), c, "columns %s" % list(w.columns))
+    idx0 = pd.date_range(pd.Timestamp("2020-01-01", tz="UTC") + pd.Timedelta(hours=c["start_h"]), periods=c["n"], freq="h")
+    # the same instants on the meter's clock and then on two other clocks (a meter processed in local time and again in UTC): each
+    # answer belongs to the calendar of the index it was asked for
+    others = [z for z in ("UTC", "Asia/Tokyo", "America/Los_Angeles") if z != c["tz"]][:2]
+    for pos, tz in enumerate([c["tz"]] + others):
+        idx = idx0.tz_convert(tz)
+        w = segment_time_series(idx, c["type"], drop_zero_weight_segments=c["drop"])
+        ref = ref_weights(idx.month.values, c["type"])
+        if c["drop"]:
+            ref = {k: v for k, v in ref.items() if v.sum() > 0}
+        ok = list(w.columns) == list(ref.keys()) and all(np.array_equal(w[k].values.astype(float), v) for k, v in ref.items()) and w.index.equals(idx)
+        if not ok:
+            rec.violation("weights/span/%s/drop=%d%s" % (c["type"], c["drop"], "/same-instants-on-another-clock" if pos else ""), c,
+                          "zone %s: columns %s" % (tz, list(w.columns)))
+            break
+    idx = idx0.tz_convert(c["tz"])
     nm = len(set(idx.month.values))
     rec.case(c, nm >= 2, ["sub=span", "type=" + c["type"], "months=%d" % min(nm, 4)])
 
